@@ -47,7 +47,7 @@ fn verify_pinned(icb: &Icb, cache: &PageCache, sc: &str, k: u32, expect_v: Optio
     }
 }
 
-fn run_ops(icb: &Icb, cache: &PageCache, sc: &str, ops: &[Op]) {
+fn run_ops(icb: &Icb, cache: &PageCache, sc: &str, ops: &[Op], cap: usize, distinct_keys: usize) {
     let fill = |k: u32| move |buf: &mut [u8]| -> eyre::Result<()> { buf[0] = tag(k); buf[1] = 0; Ok(()) };
     for op in ops {
         match *op {
@@ -97,13 +97,41 @@ fn run_ops(icb: &Icb, cache: &PageCache, sc: &str, ops: &[Op]) {
     // capacity: every key lives in shard 0 whose capacity is 1 (cache of 64 pages / 64 shards).
     // len() walks all 64 shard locks (128 scheduling points), so it is sampled once per thread.
     let n = cache.len();
-    if n > 1 {
-        icb.event(&format!("C35/{sc}/shard-over-capacity"), "<= 1 entry in the shard", &format!("{n} entries"));
+    if n > cap {
+        icb.event(&format!("C35/{sc}/shard-over-capacity"), &format!("<= {cap} entries in the shard"), &format!("{n} entries"));
+    }
+    if n > distinct_keys {
+        icb.event(&format!("C35/{sc}/more-entries-than-keys"), &format!("<= {distinct_keys} entries (one per key ever used)"), &format!("{n} entries"));
     }
 }
 
 fn scenario(name: &str, bound: usize, tight_budget: bool, threads: Vec<Vec<Op>>) -> Scenario {
+    scenario_p(name, bound, tight_budget, 64, threads)
+}
+
+fn keys_of(threads: &[Vec<Op>]) -> usize {
+    let mut ks = std::collections::BTreeSet::new();
+    for t in threads {
+        for op in t {
+            match *op {
+                Op::Gi(k) | Op::GiW(k, _) | Op::G(k) | Op::Touch(k) => {
+                    ks.insert(k);
+                }
+                Op::GiHold2(a, b) => {
+                    ks.insert(a);
+                    ks.insert(b);
+                }
+                Op::Evict | Op::Clear => {}
+            }
+        }
+    }
+    ks.len()
+}
+
+/// `pages` = cache size; the shard all keys fall into has capacity pages/64
+fn scenario_p(name: &str, bound: usize, tight_budget: bool, pages: usize, threads: Vec<Vec<Op>>) -> Scenario {
     let nm = name.to_string();
+    let (cap, nkeys) = (pages / 64, keys_of(&threads));
     Scenario {
         name: name.to_string(),
         bound,
@@ -119,11 +147,11 @@ fn scenario(name: &str, bound: usize, tight_budget: bool, threads: Vec<Vec<Op>>)
                     let _ = budget.allocate(Pool::Shared, limit - PAGE - PAGE / 2);
                 }
                 let base_cache_used = budget.stats().cache_used;
-                let cache = Arc::new(PageCache::with_budget(64, Some(budget.clone())).expect("cache"));
+                let cache = Arc::new(PageCache::with_budget(pages, Some(budget.clone())).expect("cache"));
                 let mut hs = Vec::new();
                 for ops in threads.iter().cloned() {
                     let (cache, icb, nm) = (cache.clone(), icb.clone(), nm.clone());
-                    hs.push(shuttle::thread::spawn(move || run_ops(&icb, &cache, &nm, &ops)));
+                    hs.push(shuttle::thread::spawn(move || run_ops(&icb, &cache, &nm, &ops, cap, nkeys)));
                 }
                 for h in hs {
                     let _ = h.join();
@@ -156,6 +184,8 @@ fn scenarios(ctx: &Ctx) -> Vec<Scenario> {
     let mut v = vec![
         scenario("2t-insert-two-keys", b2, false, vec![vec![Op::GiW(0, 7), Op::G(1)], vec![Op::GiW(1, 9), Op::G(0)]]),
         scenario("2t-same-key", b2, false, vec![vec![Op::GiW(0, 7), Op::Gi(0)], vec![Op::Gi(0), Op::G(0)]]),
+        // capacity 2 per shard: a second entry for the same key would fit, so it must not be created
+        scenario_p("2t-same-key-roomy-shard", b2, false, 128, vec![vec![Op::GiW(0, 7), Op::G(0)], vec![Op::Gi(0), Op::G(0)]]),
         scenario("2t-hold-two", b2, false, vec![vec![Op::GiHold2(0, 1)], vec![Op::GiHold2(1, 2)]]),
         scenario("2t-evict-vs-pin", b2, false, vec![vec![Op::GiW(0, 5), Op::Gi(1)], vec![Op::Evict, Op::Gi(0), Op::Evict]]),
         scenario("2t-tight-budget", b2, true, vec![vec![Op::GiW(0, 5), Op::Gi(1)], vec![Op::Gi(2), Op::G(0)]]),
